@@ -317,3 +317,18 @@ package workflow
 //@   ensures len(c.(*roleBase).Bind) == old(len(r.Bind)) && fresh(c.(*roleBase).Bind)
 //@   ensures forall i int :: 0 <= i && i < old(len(r.Bind)) ==> c.(*roleBase).Bind[i] == old(r.Bind[i])
 //@   ensures len(c.(*roleBase).Constraints) == old(len(r.Constraints)) && fresh(c.(*roleBase).Constraints)
+
+// ---------------------------------------------------------------------------------------------------------
+// C15: loading a workflow. Children processed in goroutines write only their own slot / their own role; what they share
+// (the accumulated error) is written under a lock, so the result does not depend on the schedule.
+//@ func (i *iteratorRole) expandTemplate() (err error)
+//@   property C15
+//@   goframes
+
+//@ func (i *iteratorRole) ProcessTemplates(workflowRepo repos.IRepo, loadSubworkflow LoadSubworkflowFunc, baseConfigStack map[string]string) (err error)
+//@   property C15
+//@   goframes
+
+//@ func (r *aggregatorRole) ProcessTemplates(workflowRepo repos.IRepo, loadSubworkflow LoadSubworkflowFunc, baseConfigStack map[string]string) (err error)
+//@   property C15
+//@   goframes
